@@ -399,3 +399,67 @@ Proof.
       rewrite Nat.mod_small by lia. destruct (Nat.eqb_spec (j' - j) 0); [lia|reflexivity].
     + intros m _. f_equal. rewrite <- cos_neg. f_equal. rewrite minus_INR by lia. field. exact HN0.
 Qed.
+
+(* ------------------------------------------------------------------ *)
+(* sums over a symmetric integer range stored with an offset: i = n + K, n = -K..K *)
+Lemma rsum_Zsym K (g : Z -> R) :
+  rsum (2 * K + 1) (fun i => g (Z.of_nat i - Z.of_nat K)%Z)
+  = g 0%Z + rsum K (fun n => g (Z.of_nat (S n)) + g (- Z.of_nat (S n))%Z).
+Proof.
+  replace (2 * K + 1)%nat with (K + S K)%nat by lia. rewrite rsum_split.
+  rewrite (rsum_rev K). rewrite rsum_S_head.
+  rewrite rsum_plus.
+  rewrite (rsum_ext K (fun k => g (Z.of_nat (K - 1 - k) - Z.of_nat K)%Z) (fun n => g (- Z.of_nat (S n))%Z)).
+  2:{ intros k Hk. f_equal. lia. }
+  rewrite (rsum_ext K (fun k => g (Z.of_nat (K + S k) - Z.of_nat K)%Z) (fun n => g (Z.of_nat (S n)))).
+  2:{ intros k Hk. f_equal. lia. }
+  replace (Z.of_nat (K + 0) - Z.of_nat K)%Z with 0%Z by lia. ring.
+Qed.
+
+(* the code's Nyquist test  "N even and m == N/2"  is  2 m = N *)
+Lemma nyquist_test N m : Nat.even N && (m =? N / 2)%nat = (2 * m =? N)%nat.
+Proof.
+  destruct (Nat.Even_or_Odd N) as [[M EM]|[M EM]].
+  - assert (Ediv : (N / 2 = M)%nat) by (symmetry; apply (Nat.div_unique N 2 M 0); lia).
+    assert (Ev : Nat.even N = true) by (apply Nat.even_spec; exists M; exact EM).
+    rewrite Ev, Ediv. cbn [andb]. destruct (Nat.eqb_spec m M), (Nat.eqb_spec (2 * m) N); try reflexivity; lia.
+  - assert (Ev : Nat.even N = false).
+    { destruct (Nat.even N) eqn:E; [|reflexivity]. apply Nat.even_spec in E. destruct E as [M' EM']. lia. }
+    rewrite Ev. cbn [andb]. destruct (Nat.eqb_spec (2 * m) N); [lia|reflexivity].
+Qed.
+
+(* reflection j -> (N - j) mod N of the periodic grid *)
+Lemma rsum_flip N g : rsum N g = rsum N (fun j => g ((N - j) mod N)%nat).
+Proof.
+  destruct N as [|n]; [reflexivity|].
+  rewrite !rsum_S_head. rewrite Nat.sub_0_r, Nat.mod_same by lia. f_equal.
+  rewrite (rsum_rev n). apply rsum_ext. intros k Hk. f_equal.
+  rewrite Nat.mod_small by lia. lia.
+Qed.
+
+(* periodicity with an integer number of turns *)
+Lemma sin_periodZ x (z : Z) : sin (x + 2 * IZR z * PI) = sin x.
+Proof.
+  destruct (Z_le_gt_dec 0 z) as [H|H].
+  - rewrite <- (Z2Nat.id z H), <- INR_IZR_INZ. apply sin_period.
+  - rewrite <- (sin_period (x + 2 * IZR z * PI) (Z.to_nat (- z))).
+    rewrite INR_IZR_INZ, Z2Nat.id by lia. rewrite opp_IZR. f_equal. ring.
+Qed.
+
+Lemma cos_periodZ x (z : Z) : cos (x + 2 * IZR z * PI) = cos x.
+Proof.
+  destruct (Z_le_gt_dec 0 z) as [H|H].
+  - rewrite <- (Z2Nat.id z H), <- INR_IZR_INZ. apply cos_period.
+  - rewrite <- (cos_period (x + 2 * IZR z * PI) (Z.to_nat (- z))).
+    rewrite INR_IZR_INZ, Z2Nat.id by lia. rewrite opp_IZR. f_equal. ring.
+Qed.
+
+(* grid angle of the reflected index *)
+Lemma grid_angle_flip N j : (j < N)%nat ->
+  exists z : Z, 2 * PI * INR ((N - j) mod N) / INR N = - (2 * PI * INR j / INR N) + 2 * IZR z * PI.
+Proof.
+  intros Hj. assert (HN0 : INR N <> 0) by (apply INR_pos_neq0; lia).
+  destruct j as [|j'].
+  - exists 0%Z. rewrite Nat.sub_0_r, Nat.mod_same by lia. simpl (INR 0). simpl (IZR 0). field. exact HN0.
+  - exists 1%Z. rewrite Nat.mod_small by lia. rewrite minus_INR by lia. field. exact HN0.
+Qed.
